@@ -9,7 +9,7 @@
    request history and from plan caching, and byte-identity of the whole
    response, are checked on the implementation itself (harness/c12.go). *)
 From Coq Require Import List NArith Bool Permutation Sorted.
-From GQL Require Import Ext.Determinism Proofs.ExtDetProofs.
+From GQL Require Import Ext.Determinism Ext.History Proofs.ExtDetProofs.
 Import ListNotations.
 Open Scope N_scope.
 
@@ -71,6 +71,41 @@ Proof.
   - exact bytes_leb_antisym.
 Qed.
 Print Assumptions C12_order_independent_strings.
+
+(* History independence.  On the machine of Ext/History.v -- persisted slots
+   (lazily built type tables, cached plans and their lazily planned parts)
+   that a request can only read, an empty slot being initialised on the way
+   with a value determined by the schema and the slot's key; hit / miss
+   counters; evictions and cache resets between requests -- the response to a
+   request after ANY history of requests, evictions and resets equals the
+   response to it on the fresh state.  For all request programs, all
+   initialisation functions, all histories. *)
+Theorem C12_history_independent :
+  forall (val resp : Type) (init : N -> val) (h : list (op val resp)) (p : prog val resp),
+    fst (exec val resp init p (run val resp init h)) = fst (exec val resp init p (empty val)).
+Proof. exact history_independent. Qed.
+Print Assumptions C12_history_independent.
+
+(* The same from any state whose filled slots hold what their initialisation
+   gives (the invariant behind the theorem; this is the hypothesis a slot of
+   the code has to meet). *)
+Theorem C12_history_independent_from :
+  forall (val resp : Type) (init : N -> val) (st : state val) (h : list (op val resp)) (p : prog val resp),
+    wf val init st ->
+    fst (exec val resp init p (run_from val resp init st h)) = answer val resp init p.
+Proof. exact history_independent_from. Qed.
+Print Assumptions C12_history_independent_from.
+
+(* Non-vacuity: the invariant is needed.  A slot that holds something else than
+   its initialisation gives (e.g. a plan's pre-coerced argument map that an
+   earlier resolver modified) changes the response. *)
+Example C12_history_needs_idempotent_slots :
+  let init := fun _ : N => 1 in
+  let p := Read N N 0 (fun v => Answer N N v) in
+  let dirty := mkState N (fun _ => Some 2) 0 0 in
+  fst (exec N N init p dirty) <> fst (exec N N init p (empty N)) /\
+  fst (exec N N init p (run N N init [Request N N p; Evict N N 0; Request N N p; Reset N N])) = 1.
+Proof. split; [discriminate | reflexivity]. Qed.
 
 (* Non-vacuity: the oracles matter for a site that does not sort (the code
    before the fixes): reversing the iteration order changes its output. *)
